@@ -754,6 +754,9 @@ class Exec(ExecBase):
         if isinstance(root, ast.Name) and root.id.startswith(DROPPED_CALL_PREFIXES) and root.id not in st.env:
             yield VNone(), st
             return
+        if isinstance(f, ast.Name) and f.id == "print" and "print" not in st.env:
+            yield VNone(), st      # output only (DESIGN §2.1): arguments are not evaluated
+            return
         if any(isinstance(a, ast.Starred) for a in node.args) or any(k.arg is None for k in node.keywords):
             raise Unsupported("*args/**kwargs call")
         # lazy builtins that take generator expressions
